@@ -18,7 +18,7 @@ TECHNIQUE = ('runtime monitoring: reference-model oracle (independent '
              'electron-balance rule + graph-edit applier on reference '
              'embeddings), products compared up to labelled-graph '
              'isomorphism')
-RULE = ('unimolecular rules from 30 hand-written edit templates (incl. non-commuting edit sequences) plus a systematic family (every bond edit x every bond order x C-C/C-O/C-H/O-H/O-O with balancing radical edits) (H abstraction, scissions, '
+RULE = ('unimolecular rules from 30 hand-written edit templates (incl. non-commuting edit sequences) plus random balanced edit sequences (2-4 atom fragments, 1-4 bond edits, auto-balanced by radical edits) and a systematic family (every bond edit x every bond order x C-C/C-O/C-H/O-H/O-O with balancing radical edits) (H abstraction, scissions, '
         'beta scission, 1,2-shift, recombination, bond-order increase / '
         'decrease / modify with radical compensation, dehydrogenation, set '
         'radicals) rendered with random layout, each also in unbalanced '
